@@ -42,7 +42,10 @@ theorem total (s : Str) :
 /-! non-vacuity: `(1.2  NAME ( 'a'  'b' ) DESC 'x\27\5Cy' SUP ( top$person ) x-k  'v' )` -/
 example : ∃ d, parseOC (ofString "(1.2  NAME ( 'a'  'b' ) DESC 'x\\27\\5Cy' SUP ( top$person ) x-k  'v' )") = .ok d ∧
     d.names = [ofString "a", ofString "b"] ∧ d.desc = some (ofString "x'\\y") ∧ d.sup = [ofString "top", ofString "person"] ∧
-    d.exts = [(ofString "k", [ofString "v"])] := ⟨_, by decide, by decide, by decide, by decide, by decide⟩
+    d.exts = [(ofString "k", [ofString "v"])] :=
+  ⟨{ oid := ofString "1.2", names := [ofString "a", ofString "b"], desc := some (ofString "x'\\y"),
+     sup := [ofString "top", ofString "person"], exts := [(ofString "k", [ofString "v"])] },
+   by rfl, by decide, by decide, by decide, by decide⟩
 example : OCSent { oid := ofString "1.2", kind := 1 } (ofString "( 1.2 )") :=
   Proofs.sample_oc_sentence
 
